@@ -118,6 +118,14 @@ def run(ctx):
         if strict:
             raise
         vlib.log("self-test skipped on a violating tree:", e)
+    # 7. extension: the same clauses while the contract table changes inside a transaction / block (spec/flagsdyn, harness/c16dyn)
+    ep = os.path.join(os.path.dirname(os.path.abspath(__file__)), "c16_dyn.py")
+    if os.path.exists(ep) and not ctx.replay:
+        import importlib.util
+        sp = importlib.util.spec_from_file_location("check_c16_dyn", ep)
+        m = importlib.util.module_from_spec(sp)
+        sp.loader.exec_module(m)
+        m.run_ext(ctx)
 
 
 def expect_model_error(ctx, module, cfg):
